@@ -284,13 +284,13 @@ class World:
 EXTERN_ENUMS = {
     'core::option::Option': [('None', 0), ('Some', 1)],
     'core::result::Result': [('Ok', 1), ('Err', 1)],
-    'core::ops::ControlFlow': [('Continue', 1), ('Break', 1)],
-    'core::ops::Bound': [('Included', 1), ('Excluded', 1), ('Unbounded', 0)],
+    'core::ops::control_flow::ControlFlow': [('Continue', 1), ('Break', 1)],
+    'core::ops::range::Bound': [('Included', 1), ('Excluded', 1), ('Unbounded', 0)],
     'core::cmp::Ordering': [('Less', 0), ('Equal', 0), ('Greater', 0)],
 }
 OPTION = 'core::option::Option'
 RESULT = 'core::result::Result'
-CFLOW = 'core::ops::ControlFlow'
+CFLOW = 'core::ops::control_flow::ControlFlow'
 
 
 def none():
@@ -364,7 +364,7 @@ class Interp:
         self.adts = {}
         for c in crates:
             for f in c.fns:
-                self.by_path.setdefault(f.path, f)
+                self.by_path.setdefault(F.raw_key(f.path), f)
             for p, a in c.adts.items():
                 self.adts.setdefault(F.norm_path(p), a)
         self.stats = {'worlds': 0, 'calls_inlined': 0, 'calls_opaque': 0, 'calls_model': 0, 'calls_event': 0,
@@ -936,8 +936,8 @@ class Interp:
     # ---- calls ----
     def find_body(self, ci):
         for p in (ci.resolved, ci.path):
-            if p and p in self.by_path:
-                return self.by_path[p]
+            if p and F.raw_key(p) in self.by_path:
+                return self.by_path[F.raw_key(p)]
         return None
 
     def do_call(self, fn, bb, w, depth, t):
@@ -985,7 +985,7 @@ class Interp:
     def call_closure(self, w, depth, clos, args, by_ref=None):
         """Call closure value `clos` (('closure', def, captures) or ('fn', def)) with untupled args."""
         if clos[0] == 'fn':
-            body = self.by_path.get(clos[1])
+            body = self.by_path.get(F.raw_key(clos[1]))
             if body is None:
                 # constructor functions like Input::Control / Some used as fn items
                 ctor = self._ctor(clos[1], args)
@@ -995,7 +995,7 @@ class Interp:
             return self.inline(body, w, depth, args)
         if clos[0] != 'closure':
             return None
-        body = self.by_path.get(clos[1])
+        body = self.by_path.get(F.raw_key(clos[1]))
         if body is None:
             return None
         # closure bodies take the environment as _1: by value for FnOnce-only closures,
